@@ -17,6 +17,8 @@ TranscribedRuns(e) ==
 Small(e) == e.bbox[3] <= 14 /\ e.bbox[4] <= 14
 StepShape(e) == /\ e.ev = "shape" /\ UNCHANGED cur
                 /\ Report(e.case, ShapeFails(e), [bbox |-> e.bbox, np |-> e.np, nc |-> e.nc])
+                /\ Report(e.case, ProtoFails(e), [bbox |-> e.bbox, np |-> e.np, what |-> "iterator_protocol",
+                                                   proto |-> [e.proto EXCEPT !.walk = <<>>]])
                 /\ DriftReport(e.case, cur.k \notin {"circle", "ellipse", "rrect"} \/ ~Small(e) \/ e.cr = TranscribedRuns(e),
                                "contains_transcription", [k |-> cur.k, bbox |-> e.bbox])
 \* a library call of this case panicked: the property promises a result for every input of its domain
